@@ -190,10 +190,12 @@ def make_strategy_class():
             self._maybe_fault("process_closed_market")
 
         # ---- script interpreter ------------------------------------------------------
-        def _order_ref(self, k):
-            if not self.my_orders:
+        def _order_ref(self, k, market=None):
+            # a strategy acts on a market's orders through that market only
+            pool = [o for o in self.my_orders if market is None or o.market_id == market.market_id]
+            if not pool:
                 return None
-            return self.my_orders[k % len(self.my_orders)]
+            return pool[k % len(pool)]
 
         def build_order(self, market, op):
             spec = self.lab.market_specs[self.lab.market_index[market.market_id]]
@@ -283,7 +285,7 @@ def make_strategy_class():
                         market.context["line_range_result"] = op["value"]
                         res.result = "set"
                     else:
-                        order = self._order_ref(op.get("o", 0))
+                        order = self._order_ref(op.get("o", 0), market)
                         res.target = order
                         if order is None:
                             res.result = "no-order"
